@@ -33,7 +33,8 @@ def _rm(name):
 
 def sig(c, r):
     why = r.get("why") or ""
-    what = why.split(":")[1].strip().split(" ")[0] if ":" in why else ""
+    m = re.match(r"rank \d+: (\S+)", why)
+    what = m.group(1) if m else ""
     s = {"kind": c.get("kind", ""), "nr": c["nr"], "outcome": r.get("outcome", "mismatch"), "what": what}
     m = re.search(r"ASSERTION FAILED: ([^\n]*)", r.get("stderr") or "")
     if m:
@@ -53,7 +54,7 @@ def mat_plan(thorough):
 
 
 def gen_mat(nr, nd, nc, square, pvs):
-    name = "gen_GlobalMat_%d_%d_%d_%d_%d.cfg" % (nr, nd, nc, 1 if square else 0, os.getpid())
+    name = "gen_GlobalMat_%d_%d_%d_%d_%s_%d.cfg" % (nr, nd, nc, 1 if square else 0, "".join(ch for ch in pvs if ch.isdigit()), os.getpid())
     laws = "LawUnshared LawConsistent" + (" LawDiag" if square else "")
     _cfg(name, "SPECIFICATION GenSpec\nCONSTANTS NR = %d ND = %d NC = %d SQUARE = %s PVS = %s BS = 6\nINVARIANTS Emit %s\n"
          % (nr, nd, nc, "TRUE" if square else "FALSE", pvs, laws))
@@ -64,7 +65,13 @@ def gen_mat(nr, nd, nc, square, pvs):
 
 
 def replay(chk, binary, cases, nr, harness, keyf, nontrivial, shards=None, tmo=30):
-    res = vlib.run_cases(binary, cases, tmo=tmo, max_abnormal=6, shards=shards or max(1, min(6, 12 // nr)), wrapper=MPIRUN + [str(nr)])
+    # the three parts replay side by side: at most 3 mpirun jobs per part
+    try:
+        res = vlib.run_cases(binary, cases, tmo=tmo, max_abnormal=6, shards=shards or max(1, min(3, 9 // nr)), wrapper=MPIRUN + [str(nr)])
+    except vlib.MachineryError as e:
+        # an mpirun that fails to start on the loaded machine (ORTE out of resource) is not a statement about the property: one retry, one job
+        vlib.log("[c13x] replay failed to start (%s); retrying once" % str(e).splitlines()[0][:200])
+        res = vlib.run_cases(binary, cases, tmo=tmo, max_abnormal=6, shards=1, wrapper=MPIRUN + [str(nr)])
     vlib.judge_results(chk, cases, res, sig, harness=harness, keyf=keyf, nontrivial=nontrivial)
     return len(cases)
 
@@ -162,7 +169,7 @@ def mux_plan(thorough):
 
 
 def gen_mux(nr, np_, csets, maxg):
-    name = "gen_Muxer_%d_%d_%d_%d.cfg" % (nr, np_, maxg, os.getpid())
+    name = "gen_Muxer_%d_%d_%d_%d_%d.cfg" % (nr, np_, maxg, len(csets), os.getpid())
     _cfg(name, "SPECIFICATION Spec\nCONSTANTS NR = %d NP = %d CSETS = %s MAXG = %d\nINVARIANTS Emit LawJoinSplit\n" % (nr, np_, csets, maxg))
     try:
         return vlib.tlc("Gen_Muxer", name, workers=1, timeout=1500)
